@@ -231,43 +231,15 @@ def run(ctx):
             b = f.body(n)
             if b is None:
                 continue
-            oc = outcome(b)
-            sym = oc.sym
-
-            def lit(bd, s_, bb, size=fixed[adt].get("size")):
-                # the literal `announced length == size of the struct` (as `==` or `!=`, either operand order; the size as
-                # size_of::<Self>(), a constant with that value, or the length of the value's own byte image)
-                t = bd.term(bb)
-                if t["t"] != "switch" or t.get("dty") != "bool":
-                    return None
-                at = bool_atom(s_.operand(t["discr"]))
-                if not at or at[0] != "eq" or at[2] is None:
-                    return None
-
-                def is_len(x):
-                    return _is_announced_length(x)
-
-                def is_size(x):
-                    v = int_value(x, f)
-                    if v is not None:
-                        return v == size
-                    return re.search(r"slice::len\(.*as_ref|len\(.*\$res|len\(.*res", render(x)) is not None
-                if not ((is_len(at[1]) and is_size(at[2])) or (is_len(at[2]) and is_size(at[1]))):
-                    return None
-                e = switch_bool_edges(bd, bb)
-                return [(bb, e[1] if at[3] else e[0])]
-            edges = set()
-            for bi, blk in enumerate(b.blocks):
-                if blk["term"]["t"] == "switch":
-                    e = lit(b, sym, bi)
-                    if e:
-                        edges.update(e)
-            body_reads = [c for c in b.calls() if c.name == "read_exact" and "RangeFrom" in K.arg_renders(c)[1]]
-            ok = bool(edges) and bool(body_reads) and all(c.bb not in b.reachable(0, removed_edges=edges) for c in body_reads)
+            # Decided per value of the announced length (ValueSplit): for no length other than the size of the struct can
+            # a read of the body be reached — however the test is spelt (`!=` / `==` / `match` / `cmp` / two inequalities,
+            # either operand order, early return or nested, in a new private helper; the size as size_of::<Self>(), a
+            # constant, `Self::size()` or the length of the value's own byte image).
+            ok, detail = body_read_needs_exact_length(f, b, fixed[adt].get("size"))
             ng += 1
             ctx.ob("R-GRD", "%s::%s:length-guard" % (short(adt), meth), ok,
                    "%s::%s reads the PDU body only if the header's length equals the struct size" % (short(adt), meth),
-                   where=b.loc, detail={"guard_edges": sorted(edges), "body_reads": len(body_reads)})
+                   where=b.loc, detail=detail)
             if meth in ("read",):
                 pdu_c = f.consts.get(adt + "::PDU")
                 g = eq_matcher(r"Header::pdu\(", r"^%s$" % (pdu_c.get("v") if pdu_c else "?"))
@@ -290,6 +262,17 @@ def run(ctx):
             ctx.missing("R-GRD", short(owner) + "::read_payload", n)
             continue
         found, ok, detail = short_length_fails(f, b, fx)
+        if not (found and ok):
+            # the same fact decided per value of the announced length: no length below the fixed size ends in success
+            size = (f.adts.get(fx) or {}).get("size")
+            vs = ValueSplit(f, b, _is_announced_length, extra=(size,)) if size is not None else None
+            if vs is not None and vs.tests:
+                short_ = [v for v in sorted(vs.samples) if v < size]
+                bad = [v for v in short_ if vs.succeeds(v)]
+                if any(vs.decided(v) for v in short_) and not bad and any(vs.succeeds(v) for v in vs.samples):
+                    found, ok, detail = True, True, None
+                elif bad:
+                    detail = {"too_short_lengths_that_can_succeed": bad[:8], "tests": detail}
         ctx.ob("R-GRD", "%s::read_payload:length>=fixed" % short(owner), found and ok,
                "%s::read_payload fails when the announced length is smaller than the fixed part" % short(owner), where=b.loc, detail=detail)
     ab = f.body(P + "Aspa::read_payload::{closure#0}")
@@ -297,9 +280,24 @@ def run(ctx):
         mp = MustPass(f, lambda c: False, guard_fn=lambda bd, s_, bb: multiple_of_edges(f, bd, s_, bb, P + "AspaFixed", 4),
                       name="providers % 4 == 0")
         ok = mp.holds(ab.name)
+        detail = None
+        if not ok:
+            # decided per value of the announced length: whichever quantity the remainder is taken of (the difference,
+            # the whole length — the fixed part is itself a multiple of 4 —, a helper's result) and wherever the test
+            # sits, a length whose provider part is not a multiple of 4 cannot end in success
+            size = (f.adts.get(P + "AspaFixed") or {}).get("size")
+            vs = ValueSplit(f, ab, _is_announced_length, extra=(size, size + 4)) if size is not None else None
+            if vs is not None and vs.tests:
+                odd = [v for v in sorted(vs.samples) if v >= size and (v - size) % 4 != 0]
+                bad = [v for v in odd if vs.succeeds(v)]
+                good = [v for v in sorted(vs.samples) if v >= size and (v - size) % 4 == 0 and vs.succeeds(v)]
+                ok = bool(odd) and not bad and bool(good)
+                detail = {"lengths_with_ragged_provider_list_that_can_succeed": bad[:8]}
+            if not ok:
+                detail = [detail, K.why(f, mp, ab.name)]
         ctx.ob("R-GRD", "Aspa::read_payload:providers-multiple-of-4", ok,
                "Aspa::read_payload succeeds only if the provider list length is a multiple of 4", where=ab.loc,
-               detail=None if ok else K.why(f, mp, ab.name))
+               detail=None if ok else detail)
     # Payload::read: unknown PDU types fail; EndOfData: versions other than 0,1,2 fail.  Decided per value of the
     # (one-octet) header field: whichever way the dispatch is written — `match` on the field or on its accessor, an
     # `if` chain, range patterns — for every value the feasible edges are followed and what can be reached is compared
@@ -607,7 +605,44 @@ def _is_announced_length(t):
             t = strip_deep(t[2][0])
         else:
             break
-    return t[0] == "call" and (t[3] or {}).get("res") in (P + "Header::pdu_len", P + "Header::length")
+    if t[0] == "call" and (t[3] or {}).get("res") in (P + "Header::pdu_len", P + "Header::length"):
+        return True
+    # the field itself, converted from network byte order (`u32::from_be(h.length)`, `u32::from_be_bytes(..)`)
+    if t[0] == "call" and len(t[2]) == 1 and (t[3] or {}).get("name") in ("from_be", "from_be_bytes") and _NUM_FN.match((t[3] or {}).get("fn") or ""):
+        x = strip_deep(t[2][0])
+        if x[0] == "call" and len(x[2]) == 1 and (x[3] or {}).get("name") == "to_ne_bytes":
+            x = strip_deep(x[2][0])
+        # (the header's only 32-bit field, whatever it is called)
+        return x[0] == "field" and (x[3] if len(x) > 3 else None) == P + "Header" and "u32" in ((t[3] or {}).get("fn") or "")
+    return False
+
+
+def body_read_needs_exact_length(f, b, size):
+    """In the reader `b` of a fixed-layout PDU every `read_exact` other than the one that fetches the header itself is
+    reachable only when the announced length equals `size`.  The header fetch is recognised by its place, not its
+    spelling: when the header is not handed in as a parameter, the first read_exact that every test of the length has
+    to pass (there is nothing to test before it).  -> (ok, detail)"""
+    if size is None:
+        return False, "no layout"
+    vs = ValueSplit(f, b, _is_announced_length, extra=(size,))
+    reads = [c for c in b.calls() if c.name == "read_exact" and (c.trait or "").endswith("AsyncReadExt") and not b.is_cleanup(c.bb)]
+    if not vs.tests:
+        return False, {"tests_of_the_announced_length": 0, "reads": len(reads)}
+    lens = [x for _, d, _ in vs.tests for x in walk(d) if _is_announced_length(x)]
+    handed_in = all(any(y[0] in ("param", "upvar") for y in walk(x)) for x in lens)
+    fetch = []
+    if not handed_in:
+        dom = b.dominators()
+        cands = [c for c in reads if all(c.bb in dom.get(tb, ()) for tb, _, _ in vs.tests)]
+        fetch = [c for c in cands if all(c.bb in dom.get(o.bb, ()) or o is c for o in cands)][:1]
+    body_reads = [c for c in reads if c not in fetch]
+    if not body_reads:
+        return False, {"body_reads": 0, "reads": len(reads)}
+    bad = [v for v in sorted(vs.samples) if v != size and any(c.bb in vs.reach(v, success_only=False) for c in body_reads)]
+    reached = all(c.bb in vs.reach(size, success_only=False) for c in body_reads)
+    ok = not bad and reached and bool(vs.decided(size))
+    return ok, {"body_reads": len(body_reads), "header_fetch": [c.where() for c in fetch], "tests": len(vs.tests),
+                "lengths_other_than_%d_that_reach_a_body_read" % size: bad[:8]}
 
 
 def _is_len_minus(t, f, size):
@@ -721,6 +756,422 @@ def multiple_of_edges(f, b, sym, bb, fx, k):
     if kind is None:
         return None
     return edges_except(b, bb, _FAIL_DISCR[kind])
+
+
+# ---------------------------------------------------------------------------------------------------------------
+# Deciding branches for one concrete value of one quantity.  The length rules are statements of the form "for every
+# announced length L outside the set S, no success return (no body read) can be reached".  Which spelling the code uses
+# to cut the bad values off — `L.checked_sub(k)` matched / `?`-ed / `ok_or`-ed / filtered, `L < k`, `k > L`,
+# `(L - k) % 4 != 0`, `L % 4 != 0`, `match L { K => … }`, a helper returning Option or Result, a flag kept in a local —
+# does not matter: every branch whose condition is an arithmetic expression of L and constants is *evaluated* for a
+# sample value of L (the samples surround every constant that occurs in such a condition, for every residue of the
+# moduli that occur, so that a predicate piecewise constant between those constants is decided on each piece), the
+# edges not taken are removed, and plain graph reachability over what remains answers the question.  A branch that
+# cannot be evaluated keeps all its edges (over-approximation: it can only produce an alarm, never hide one).
+
+_FAILED = "failed"          # the value of a None / Err: a checked operation that did not deliver
+_INT_BITS = {"u8": 8, "u16": 16, "u32": 32, "u64": 64, "usize": 64, "u128": 128}
+_NUM_FN = re.compile(r"^core::num::")
+_ARITH = {"Add": lambda a, b: a + b, "Sub": lambda a, b: a - b, "Mul": lambda a, b: a * b,
+          "Rem": lambda a, b: a % b if b else None, "Div": lambda a, b: a // b if b else None,
+          "BitAnd": lambda a, b: a & b, "BitOr": lambda a, b: a | b, "BitXor": lambda a, b: a ^ b,
+          "Shr": lambda a, b: a >> b if 0 <= b < 128 else None, "Shl": lambda a, b: None}
+
+
+def _flow_sym(b):
+    """Reaching-definition resolver (a local assigned on several paths is followed through the definition that reaches
+    the point of use); the position-insensitive Sym if that is not available."""
+    try:
+        from props.C13 import FlowSym
+        return FlowSym(b)
+    except Exception:       # noqa
+        return None
+
+
+class _Eval:
+    """Evaluation of terms for `leaf == v` (see the section comment).  Integer-valued terms give an int; Option /
+    Result / ControlFlow valued terms give their payload (an int) or _FAILED; anything else gives None (unknown)."""
+
+    def __init__(self, f, body, leaf, v, depth=0):
+        self.f, self.body, self.leaf, self.v, self.depth = f, body, leaf, v, depth
+
+    # -- integers and fallible integers ------------------------------------------------------------------------
+    def val(self, t):
+        t = strip_deep(t)
+        if self.leaf(t):
+            return self.v
+        iv = int_value(t, self.f)
+        if iv is not None:
+            return iv
+        k = t[0]
+        if k == "mvar":
+            return self.val(t[3])
+        if k == "cast":
+            x = self.val(t[1])
+            bits = _INT_BITS.get(str(t[2]))
+            return x & ((1 << bits) - 1) if isinstance(x, int) and bits and x >= 0 else x
+        if k == "bin":
+            return self._arith(t[1].replace("WithOverflow", "").replace("Unchecked", ""), t[2], t[3])
+        if k == "field" and str(t[2]) == "0":
+            base = t[1]
+            if base[0] == "bin" and base[1].endswith("WithOverflow"):
+                return self.val(base)
+            if base[0] == "variant" and base[2] in ("Some", "Ok", "Continue"):
+                x = self.val(base[1])
+                return x if isinstance(x, int) else None
+            return None
+        if k == "agg":
+            if t[2] in ("Some", "Ok", "Continue") and len(t[3]) == 1:
+                return self.val(t[3][0][1])
+            if t[2] in ("None", "Err", "Break"):
+                return _FAILED
+            return None
+        if k != "call":
+            return None
+        info = t[3] or {}
+        name, fn, trait = info.get("name"), info.get("fn") or "", info.get("trait") or ""
+        a = t[2]
+        if name == "branch" and trait.endswith("ops::Try") and a:
+            return self.val(a[0])
+        if _NUM_FN.match(fn) and len(a) == 2 and name and name.split("_")[0] in ("checked", "saturating", "strict", "unchecked"):
+            op = {"add": "Add", "sub": "Sub", "mul": "Mul", "rem": "Rem", "div": "Div"}.get(name.split("_", 1)[1])
+            x, y = self.val(a[0]), self.val(a[1])
+            if op is None or not isinstance(x, int) or not isinstance(y, int):
+                return None
+            r = _ARITH[op](x, y)
+            if name.startswith("checked"):
+                return _FAILED if r is None or r < 0 else r
+            if name.startswith("saturating"):
+                return None if r is None else max(r, 0)
+            return r if r is not None and r >= 0 else None
+        if len(a) == 2 and trait.split("::")[-1] in ("Add", "Sub", "Mul", "Rem", "Div") and "::ops::" in trait:
+            return self._arith(trait.split("::")[-1], a[0], a[1])
+        if len(a) == 2 and name in ("min", "max") and (trait.endswith("cmp::Ord") or (info.get("res") or "").endswith("cmp::" + name)):
+            x, y = self.val(a[0]), self.val(a[1])
+            return (min if name == "min" else max)(x, y) if isinstance(x, int) and isinstance(y, int) else None
+        opt, res = bool(_OPT_FN.match(fn)), bool(_RES_FN.match(fn))
+        if (opt or res) and a:
+            if name in ("unwrap", "expect", "unwrap_unchecked"):
+                x = self.val(a[0])
+                return x if isinstance(x, int) else None
+            if name in ("unwrap_or", "unwrap_or_default") :
+                x = self.val(a[0])
+                if x == _FAILED:
+                    return self.val(a[1]) if name == "unwrap_or" and len(a) == 2 else (0 if name == "unwrap_or_default" else None)
+                return x
+            if (opt and name in (_OPT_PAYLOAD_KEEPING - {"filter"}) | {"ok_or", "ok_or_else"}) or \
+                    (res and name in _RES_PAYLOAD_KEEPING | {"ok"}):
+                return self.val(a[0])
+            if opt and name == "filter" and len(a) == 2:
+                x = self.val(a[0])
+                if not isinstance(x, int):
+                    return x
+                keep = self.closure_bool(a[1], x)
+                return None if keep is None else (x if keep else _FAILED)
+            if name in ("map", "and_then") and len(a) == 2:
+                x = self.val(a[0])
+                if x == _FAILED:
+                    return _FAILED          # None stays None, Err stays Err
+                return self.closure_val(a[1], x) if isinstance(x, int) else None
+            return None
+        if len(a) == 1 and name == "try_from" and trait.endswith("TryFrom"):
+            return self.val(a[0])
+        if len(a) == 1 and name in ("len", "size_of_val"):
+            return self._image_len(a[0])
+        if not a:
+            return _const_fn_value(self.f, info.get("res"))
+        return None
+
+    def _arith(self, op, a, b):
+        x, y = self.val(a), self.val(b)
+        if op not in _ARITH or not isinstance(x, int) or not isinstance(y, int):
+            return None
+        r = _ARITH[op](x, y)
+        return r if r is not None and r >= 0 else None      # an unchecked subtraction below zero panics or wraps: unknown
+
+    def _image_len(self, t):
+        """`x.as_ref().len()` / `size_of_val(&x)` of a local whose type has a compiler-computed layout (a packed PDU
+        struct is its own byte image)."""
+        t = strip_deep(t)
+        while t[0] == "mvar":
+            l = t[2]
+            ty = self.body.local_ty(l) if isinstance(l, int) and l < len(self.body.locals) else None
+            rec = self.f.adts.get((ty or "").lstrip("&").replace("mut ", "").strip())
+            if rec and rec.get("size") is not None and "pack" in (rec.get("repr") or ""):
+                return rec["size"]
+            t = strip_deep(t[3])
+        return None
+
+    # -- booleans --------------------------------------------------------------------------------------------------
+    def truth(self, t):
+        from engine import orderlogic as OL
+        t = strip_deep(t)
+        a = OL.atom(t)
+        if a[0] == "const":
+            return a[1]
+        if a[0] == "not":
+            x = self.truth(t[2])
+            return None if x is None else not x
+        if a[0] == "cmp":
+            x, y = self.val(a[2]), self.val(a[3])
+            if not isinstance(x, int) or not isinstance(y, int):
+                if a[1] in ("==", "!=") and _FAILED in (x, y) and None not in (x, y):
+                    return (x == y) == (a[1] == "==")        # `opt == None`, `opt != Some(k)`
+                return None
+            return {"<": x < y, "<=": x <= y, ">": x > y, ">=": x >= y, "==": x == y, "!=": x != y}[a[1]]
+        if t[0] == "mvar":
+            return self.truth(t[3])
+        if t[0] == "bin" and t[1] in ("BitAnd", "BitOr"):
+            x, y = self.truth(t[2]), self.truth(t[3])
+            if t[1] == "BitAnd":
+                return False if False in (x, y) else (None if None in (x, y) else True)
+            return True if True in (x, y) else (None if None in (x, y) else False)
+        if t[0] == "call" and t[2]:
+            info = t[3] or {}
+            name, fn = info.get("name"), info.get("fn") or ""
+            if (_OPT_FN.match(fn) or _RES_FN.match(fn)) and name in ("is_some", "is_ok", "is_none", "is_err"):
+                st = self.status(t[2][0])
+                return None if st is None else (st[1] == (name in ("is_some", "is_ok")))
+            if (_OPT_FN.match(fn) or _RES_FN.match(fn)) and name in ("is_some_and", "is_ok_and", "is_none_or") and len(t[2]) == 2:
+                x = self.val(t[2][0])
+                if x == _FAILED:
+                    return name == "is_none_or"
+                return self.closure_bool(t[2][1], x) if isinstance(x, int) else None
+            if _NUM_FN.match(fn) and name == "is_multiple_of" and len(t[2]) == 2:
+                x, y = self.val(t[2][0]), self.val(t[2][1])
+                return (x % y == 0 if y else x == 0) if isinstance(x, int) and isinstance(y, int) else None
+        return None
+
+    def closure_bool(self, ct, x):
+        """Value of a predicate closure (`|v| v % 4 == 0`) on the element value x: its loop-free paths are read off its
+        MIR and the one whose conditions hold gives the result."""
+        return self._closure(ct, x, lambda ev, ret: ev.truth(ret))
+
+    def _closure(self, ct, x, result):
+        from engine import orderlogic as OL
+        ct = strip(ct)
+        cb = self.f.body(ct[1]) if ct[0] == "closure" else None
+        if cb is None or cb.arg_count < 2 or self.depth > 2:
+            return None
+        sy = K.sym_of(cb)
+        elem = strip_deep(sy.local(2))
+        inner = _Eval(self.f, cb, lambda t: strip_deep(t) == elem, x, self.depth + 1)
+        try:
+            ps = OL.paths(cb, sy, max_paths=64)
+        except OL.NotComparisonOnly:
+            return None
+        for conds, ret in ps:
+            sat = True
+            for a, want in conds:
+                if a[0] == "switch":
+                    return None
+                got = inner._atom_truth(a)
+                if got is None:
+                    return None
+                if got != want:
+                    sat = False
+                    break
+            if sat:
+                return None if ret is None else result(inner, ret)
+        return None
+
+    def closure_val(self, ct, x):
+        """Value (int / _FAILED / None) of a mapping closure (`|l| if l % 4 == 0 { Some(l) } else { None }`) on x."""
+        return self._closure(ct, x, lambda ev, ret: ev.val(ret))
+
+    def _atom_truth(self, a):
+        if a[0] == "const":
+            return a[1]
+        if a[0] == "not":
+            x = self._atom_truth(a[1])
+            return None if x is None else not x
+        if a[0] == "cmp":
+            return self.truth(("bin", {"<": "Lt", "<=": "Le", ">": "Gt", ">=": "Ge", "==": "Eq", "!=": "Ne"}[a[1]], a[2], a[3]))
+        return None
+
+    def ordering(self, t):
+        """-1 / 0 / 1 for `a.cmp(&b)` (also `partial_cmp`, whose Some is then projected) of two evaluable integers."""
+        t = strip_deep(t)
+        while t[0] == "mvar" or (t[0] == "field" and str(t[2]) == "0" and t[1][0] == "variant" and t[1][2] == "Some"):
+            t = strip_deep(t[3] if t[0] == "mvar" else t[1][1])
+        if t[0] == "call" and len(t[2]) == 2 and (t[3] or {}).get("name") in ("cmp", "partial_cmp") and \
+                ((t[3] or {}).get("trait") or "").split("::")[-1] in ("Ord", "PartialOrd"):
+            x, y = self.val(t[2][0]), self.val(t[2][1])
+            if isinstance(x, int) and isinstance(y, int):
+                return (x > y) - (x < y)
+        return None
+
+    # -- which variant -------------------------------------------------------------------------------------------------
+    def kind(self, t):
+        """'option' | 'result' | 'flow' for a term built by std's fallible arithmetic and Option/Result combinators."""
+        t = strip_deep(t)
+        while t[0] == "mvar":
+            t = strip_deep(t[3])
+        if t[0] == "agg":
+            return "option" if "option::Option" in str(t[1]) else "result" if "result::Result" in str(t[1]) else \
+                "flow" if "ControlFlow" in str(t[1]) else None
+        if t[0] != "call":
+            return None
+        info = t[3] or {}
+        name, fn = info.get("name"), info.get("fn") or ""
+        if name == "branch" and (info.get("trait") or "").endswith("ops::Try"):
+            return "flow"
+        if _OPT_FN.match(fn):
+            return "result" if name in ("ok_or", "ok_or_else") else "option"
+        if _RES_FN.match(fn):
+            return "option" if name in ("ok", "err") else "result"
+        if _NUM_FN.match(fn) and (name or "").startswith("checked_"):
+            return "option"
+        if name == "try_from" and (info.get("trait") or "").endswith("TryFrom"):
+            return "result"
+        return None
+
+    def status(self, t):
+        """(kind, delivered?) of an Option / Result / ControlFlow valued term; None if unknown.  The announced length
+        itself (`pdu_len()?`) is left open."""
+        t = strip_deep(t)
+        if self.leaf(t):
+            return None
+        kd = self.kind(t)
+        if kd is None:
+            return None
+        x = self.val(t)
+        if isinstance(x, int):
+            return (kd, True)
+        if x == _FAILED:
+            return (kd, False)
+        # combinators that keep the variant but not the payload
+        u = t
+        while u[0] == "mvar":
+            u = strip_deep(u[3])
+        if u[0] == "call" and u[2]:
+            info = u[3] or {}
+            name, fn = info.get("name"), info.get("fn") or ""
+            keeps = (name == "branch") or (_OPT_FN.match(fn) and name in ("map", "inspect", "ok_or", "ok_or_else")) or \
+                (_RES_FN.match(fn) and name in ("map", "map_err", "inspect", "inspect_err", "ok"))
+            if keeps:
+                st = self.status(u[2][0])
+                return None if st is None else (kd, st[1])
+        return None
+
+
+def _const_fn_value(f, res, depth=0):
+    """Value of a parameterless function of the crate that returns a constant expression (`T::size()`)."""
+    gb = f.body(res) if res else None
+    if gb is None or gb.arg_count != 0 or gb.is_coroutine or depth > 2:
+        return None
+    vals = [v for _, _, v in success_values(gb)]
+    return int_value(vals[0], f) if len(vals) == 1 else None
+
+
+class ValueSplit:
+    """Reachability in `b` per value of the quantity `leaf` (see the section comment)."""
+
+    def __init__(self, f, b, leaf, extra=()):
+        self.f, self.b, self.leaf = f, b, leaf
+        self.oc = outcome(b)
+        fs = _flow_sym(b)
+        self.tests = []             # (block, discriminant term, is_bool)
+        consts, moduli = set(extra), {1}
+        for bi, blk in enumerate(b.blocks):
+            t = blk["term"]
+            if t["t"] != "switch" or blk.get("cleanup"):
+                continue
+            d = None
+            if fs is not None:
+                try:
+                    d = strip_deep(fs.at(bi, "term").operand(t["discr"]))
+                except Exception:       # noqa
+                    d = None
+            if d is None or not any(leaf(x) for x in walk(d)):
+                d2 = strip_deep(self.oc.sym.operand(t["discr"]))
+                if d is None or any(leaf(x) for x in walk(d2)):
+                    d = d2
+            if not any(leaf(x) for x in walk(d)):
+                continue
+            self.tests.append((bi, d, t.get("dty") == "bool"))
+            for x in self._subterms(d):
+                iv = int_value(x, f)
+                if iv is not None and 0 <= iv < (1 << 40):
+                    consts.add(iv)
+                r = _rem_of(x, f) if x[0] in ("bin", "call") else None
+                if r and r[1]:
+                    moduli.add(r[1])
+                if x[0] == "call" and (x[3] or {}).get("name") in ("is_multiple_of", "checked_rem") and len(x[2]) == 2 and int_value(x[2][1], f):
+                    moduli.add(int_value(x[2][1], f))
+        span = 1
+        for m in moduli:
+            if m < 64:
+                span = span * m // _gcd(span, m)
+        span = min(span, 64)
+        self.samples = {0, 1, (1 << 16) - 1, 1 << 16, (1 << 32) - 1}
+        for c in consts | {0}:
+            for base in (c, c + sum(consts), 2 * c, c + (1 << 20) * span):
+                self.samples.update(x for x in range(base - span - 1, base + 2 * span + 2) if 0 <= x < (1 << 32))
+        self._memo = {}
+        self._taken = {}
+
+    def _subterms(self, d):
+        """Sub-terms of a condition, including the body of a predicate closure passed to a combinator."""
+        for x in walk(d):
+            yield x
+            if x[0] == "closure":
+                cb = self.f.body(x[1])
+                if cb is not None:
+                    sy = K.sym_of(cb)
+                    for blk in cb.blocks:
+                        for st in blk["stmts"]:
+                            if st["s"] == "assign":
+                                for y in walk(strip_deep(sy.rvalue(st["rv"]))):
+                                    yield y
+
+    def decided(self, v):
+        """{block: the one edge target taken} for the tests whose outcome is known when leaf == v."""
+        if v in self._taken:
+            return self._taken[v]
+        ev = _Eval(self.f, self.b, self.leaf, v)
+        out = {}
+        for bi, d, is_bool in self.tests:
+            tb = None
+            if is_bool:
+                x = ev.truth(d)
+                if x is not None:
+                    fe, te = switch_bool_edges(self.b, bi)
+                    tb = te if x else fe
+            elif d[0] == "discr":
+                st = ev.status(d[1])
+                o = ev.ordering(d[1]) if st is None else None
+                if st is not None:
+                    fail = _FAIL_DISCR[st[0]]
+                    tb = edge_for(self.b, bi, (1 - fail) if st[1] else fail)
+                elif o is not None:
+                    listed = [val for val, _ in self.b.term(bi)["targets"]]
+                    tb = edge_for(self.b, bi, next((val for val in listed if (val == o) or (o == -1 and val in (255, -1, (1 << 64) - 1, (1 << 128) - 1))), "other"))
+            else:
+                x = ev.val(d)
+                if isinstance(x, int):
+                    tb = edge_for(self.b, bi, x)
+            if tb is not None:
+                out[bi] = tb
+        self._taken[v] = out
+        return out
+
+    def reach(self, v, success_only=True):
+        dec = self.decided(v)
+        removed = frozenset((bi, tb) for bi, keep in dec.items() for _, tb in self.b.switch_edges(bi) if tb != keep)
+        key = (removed, success_only)
+        if key not in self._memo:
+            self._memo[key] = set(self.b.reachable(0, removed_blocks=self.oc.fail_blocks if success_only else (), removed_edges=removed))
+        return self._memo[key]
+
+    def succeeds(self, v):
+        return bool(self.reach(v) & set(self.b.return_blocks()))
+
+
+def _gcd(a, b):
+    while b:
+        a, b = b, a % b
+    return a
 
 
 # ---------------------------------------------------------------------------------------------------------------
